@@ -61,6 +61,11 @@ def main():
         for f in sorted(glob.glob(os.path.join(VERIF, 'selftest', 'harmless', pat[0] if pat else 'h*.diff'))):
             jobs.append((os.path.basename(f)[:-5], f, ALL))
 
+    only = [x for x in os.environ.get('SWEEP_PROPS', '').split(',') if x]
+    if only:
+        jobs = [(n_, p_, [q for q in pr if q in only]) for n_, p_, pr in jobs]
+        jobs = [j_ for j_ in jobs if j_[2]]
+
     def one(job):
         name, patch, props = job
         r = run(patch, props, name)
